@@ -140,6 +140,10 @@ TABLE.update({
     "c06_cleanup_keeps_stale_edges.diff": ("box", "contracts.c07b:cleanup_entities:cleanup_entities_arg_sets", None),
     "c01_sink_to_unmaterialised_constant.diff": ("contracts.c07b", "_add_signal_sink", None),
     "c06_entity_output_sourced_by_node.diff": ("contracts.c07b", "_place_entity_output", None),
+    "c03_enable_not_locked_green.diff": ("box", "contracts.c02:locked_colors:locked_colors_arg_sets", None),
+    "c02_gate_members_not_locked.diff": ("box", "contracts.c02:locked_colors:locked_colors_arg_sets", None),
+    "c02_scalar_operand_locked_red.diff": ("box", "contracts.c02:locked_colors:locked_colors_arg_sets", None),
+    "c04_feedback_not_locked.diff": ("box", "contracts.c02:locked_colors:locked_colors_arg_sets", None),
     "c04_self_feedback_on_green.diff": ("box", "contracts.c04:self_feedback:self_feedback_arg_sets", None),
     "c04_cleanup_keeps_wires_of_removed_gate.diff": ("box", "contracts.c04:cleanup_gates:cleanup_arg_sets", None),
     "../seeded/C04-1/patch.diff": ("box", "contracts.c04:optimize_feedback:feedback_arg_sets", None),
